@@ -33,6 +33,7 @@ def zipAll {α β : Type} (f : α → β → Bool) : List α → List β → Boo
   | _, _ => false
 
 def valueAgrees (vr : VR) (p : Prim) (ms : List (Bytes × J)) : Bool :=
+  if !p.nonEmpty then true else      -- a value without items: no member to look at
   match fClass vr, p with
   | _, .empty => true
   | .binary, p =>
@@ -77,6 +78,7 @@ partial def agreesElem (e : Elem) : J → Bool
      | _ => false) &&
     (match e with
      | .prim _ vr p => valueAgrees vr p fs
+     | .seq _ _ [] => true
      | .seq _ _ items =>
        (match lookup kValue fs with
         | some (.arr xs) => zipAll agreesDs items xs
